@@ -363,10 +363,12 @@ theorem handleMetadataData_life (m : M) (k i len : Nat) (g : Bool) (h : Life m.1
   · split
     · exact hclose m.1 (by lframe)
     · split
-      · simp only [onSt_fst]; exact h.congrR hr (by lframe)
+      · exact hclose m.1 (by lframe)
       · split
-        · exact hclose _ (by lframe)
-        · exact hmdAdopt_life _ (h.congrR hr (by lframe)) (hr.congr rfl rfl)
+        · simp only [onSt_fst]; exact h.congrR hr (by lframe)
+        · split
+          · exact hclose _ (by lframe)
+          · exact hmdAdopt_life _ (h.congrR hr (by lframe)) (hr.congr rfl rfl)
 
 /-! ### loaded and running: everything after a successful allocation -/
 
